@@ -122,3 +122,11 @@ func vPut32(p []byte, x uint32, big bool) {
 // harnesses which switch a decoder's counting options on by hand keep
 // compiling when the library changes how it represents the counters.
 func vMakeMap[M ~map[K]V, K comparable, V any](p *M) { *p = make(M) }
+
+// vCountingOptions switches both counting options on through the public
+// option functions (not by naming the option struct's fields).
+func vCountingOptions(d *decoder) {
+	for _, o := range []DecodeOption{WithUnknownFields(), WithUnknownMessages()} {
+		o(&d.opts)
+	}
+}
